@@ -79,6 +79,10 @@ def token_bbans(spec: dict, rng: random.Random, fields=None) -> list[str]:
     return out
 
 
+# words of the payment world that happen to have the shape of a BIC (4 characters, an ISO country code, 2 (+3) more)
+BIC_WORDS = ["NOTPROVIDED", "NOTAVAIL", "UNKNOWNBICX", "TESTDEFF", "TESTDEFFXXX", "NULLDEFF", "NONEGB2L", "XXXXDEXX", "XXXXDEXXXXX", "AAAAAAAA", "ZZZZZZZZZZZ", "BANKDEFF", "BICXUS33", "SWIFTDE1", "TODOFRPP", "DUMMYGB2L"[:8], "NOTGIVENXXX"[:11]]
+
+
 LABELS = ["IBAN", "IBAN ", "IBAN: ", "iban ", "IBAN:", "IBAN\t", "BIC ", "BIC: ", "SWIFT ", "BBAN ", "IBAN NO. ", "Iban "]
 
 
